@@ -53,7 +53,7 @@ Section maint.
   Lemma cond_abs_sound c e key v st b :
     cond_abs c (facts_of fold e key v st) = Some b → cond_eval fold c e key v st = b.
   Proof.
-    revert b. induction c as [s| | |s|c IH|a IHa b0 IHb|a IHa b0 IHb]; intros b; simpl.
+    revert b. induction c as [s| | |s|c IH|a IHa b0 IHb|a IHa b0 IHb|s]; intros b; simpl.
     - destruct (decide (s = cn)) as [->|Hs1].
       { intros [= <-]. destruct (decide (fold key = cn)) as [E|E]; simpl.
         - by rewrite bool_decide_eq_true_2.
@@ -76,6 +76,7 @@ Section maint.
       intros [= <-]. by rewrite (IHa x), (IHb y).
     - destruct (cond_abs a _) as [x|]; [|done]. destruct (cond_abs b0 _) as [y|]; [|done].
       intros [= <-]. by rewrite (IHa x), (IHb y).
+    - done.
   Qed.
 
   Lemma acts_run_app rec la lb e key v orig st :
@@ -203,6 +204,27 @@ Lemma maint_direct_revert_refuted :
 Proof.
   repeat (split; [reflexivity|]). intros HI. apply (inv_worldspawn ascii_fold) in HI as [_ HI].
   apply elem_of_elements in HI. revert HI.
+  match goal with |- _ ∈ ?l → _ => replace l with (@nil nat) by (vm_compute; reflexivity) end. set_solver.
+Qed.
+
+(** Seeded fault c07_7 (round 5): membership in the map is read from a flag cached on the entity ([self._in_map], set
+    by add_ent, cleared by remove_ent, never set by add_ents) instead of scanning [self.map.entities].  The flag is
+    state the model does not have: the state census [prog_stateless] fails, and so do the path obligations of both
+    indexed keys (the facts do not decide the condition and the two branches differ).  With the value the flag has
+    for an entity that add_ents put into the map (false), re-classing that entity leaves it in no class set. *)
+Lemma maint_cached_flag_refuted :
+  prog_stateless maint_today = true ∧ prog_stateless maint_cached_flag = false ∧
+  maint_classname_ok maint_cached_flag = false ∧ maint_targetname_ok maint_cached_flag = false ∧
+  maint_other_ok maint_cached_flag = true ∧
+  let st0 := run ascii_fold [NewEnt [(cn, [97]%N)]; AddEnts [1]] init in
+  let r := set_item_pg ascii_fold setitem_shape_today maint_cached_flag 2 1 cn [98]%N st0 in
+  Inv ascii_fold st0 ∧ r.2 = 0 ∧ ents r.1 = [1] ∧ keys_of r.1 1 = [(cn, [98]%N)] ∧ ¬ Inv ascii_fold r.1.
+Proof.
+  repeat (split; [reflexivity|]). split; [by apply run_inv, init_inv|]. repeat (split; [reflexivity|]).
+  intros HI.
+  match type of HI with Inv _ ?st => assert (H1 : 1 ∈ ix_get (by_class st) [98]%N) end.
+  { apply (inv_by_class ascii_fold); [done|]. split; [right; vm_compute; set_solver|reflexivity]. }
+  apply elem_of_elements in H1. revert H1.
   match goal with |- _ ∈ ?l → _ => replace l with (@nil nat) by (vm_compute; reflexivity) end. set_solver.
 Qed.
 
